@@ -20,49 +20,49 @@ macro_rules! common {
             "is_multiple_of" => return Some(Integer::is_multiple_of(&v(0), &v(1)).out()),
             "is_even" => return Some(Integer::is_even(&v(0)).out()),
             "is_odd" => return Some(Integer::is_odd(&v(0)).out()),
-            "sqrt" => { if !mode_ok(a[0]) { return Some("skip".into()); } return Some(Roots::sqrt(&v(1)).out()) }
-            "cbrt" => { if !mode_ok(a[0]) { return Some("skip".into()); } return Some(Roots::cbrt(&v(1)).out()) }
-            "nth_root" => { if !mode_ok(a[0]) { return Some("skip".into()); } return Some(Roots::nth_root(&v(1), parse_u32(a[2])).out()) }
-            "nt_checked_add" => return Some(CheckedAdd::checked_add(&v(0), &v(1)).out()),
-            "nt_checked_sub" => return Some(CheckedSub::checked_sub(&v(0), &v(1)).out()),
-            "nt_checked_mul" => return Some(CheckedMul::checked_mul(&v(0), &v(1)).out()),
-            "nt_checked_div" => return Some(CheckedDiv::checked_div(&v(0), &v(1)).out()),
-            "nt_checked_rem" => return Some(CheckedRem::checked_rem(&v(0), &v(1)).out()),
-            "nt_checked_neg" => return Some(CheckedNeg::checked_neg(&v(0)).out()),
-            "nt_checked_div_euclid" => return Some(CheckedEuclid::checked_div_euclid(&v(0), &v(1)).out()),
-            "nt_checked_rem_euclid" => return Some(CheckedEuclid::checked_rem_euclid(&v(0), &v(1)).out()),
-            "nt_wrapping_add" => return Some(WrappingAdd::wrapping_add(&v(0), &v(1)).out()),
-            "nt_wrapping_sub" => return Some(WrappingSub::wrapping_sub(&v(0), &v(1)).out()),
-            "nt_wrapping_mul" => return Some(WrappingMul::wrapping_mul(&v(0), &v(1)).out()),
-            "nt_wrapping_neg" => return Some(WrappingNeg::wrapping_neg(&v(0)).out()),
-            "nt_saturating_add" => return Some(Saturating::saturating_add(v(0), v(1)).out()),
-            "nt_saturating_sub" => return Some(Saturating::saturating_sub(v(0), v(1)).out()),
-            "nt_overflowing_add" => return Some(OverflowingAdd::overflowing_add(&v(0), &v(1)).out()),
-            "nt_overflowing_sub" => return Some(OverflowingSub::overflowing_sub(&v(0), &v(1)).out()),
-            "nt_pow" => { if !mode_ok(a[0]) { return Some("skip".into()); } return Some(Pow::pow(v(1), parse_u32(a[2])).out()) }
-            "nt_mul_add" => { if !mode_ok(a[0]) { return Some("skip".into()); } return Some(MulAdd::mul_add(v(1), v(2), v(3)).out()) }
-            "nt_div_euclid" => return Some(Euclid::div_euclid(&v(0), &v(1)).out()),
-            "nt_rem_euclid" => return Some(Euclid::rem_euclid(&v(0), &v(1)).out()),
-            "nt_count_ones" => return Some(Dec(PrimInt::count_ones(v(0))).out()),
-            "nt_count_zeros" => return Some(Dec(PrimInt::count_zeros(v(0))).out()),
-            "nt_leading_zeros" => return Some(Dec(PrimInt::leading_zeros(v(0))).out()),
-            "nt_trailing_zeros" => return Some(Dec(PrimInt::trailing_zeros(v(0))).out()),
-            "nt_rotate_left" => return Some(PrimInt::rotate_left(v(0), parse_u32(a[1])).out()),
-            "nt_rotate_right" => return Some(PrimInt::rotate_right(v(0), parse_u32(a[1])).out()),
-            "nt_swap_bytes" => return Some(PrimInt::swap_bytes(v(0)).out()),
-            "nt_unsigned_shl" => return Some(PrimInt::unsigned_shl(v(0), parse_u32(a[1])).out()),
-            "nt_unsigned_shr" => return Some(PrimInt::unsigned_shr(v(0), parse_u32(a[1])).out()),
-            "nt_signed_shl" => return Some(PrimInt::signed_shl(v(0), parse_u32(a[1])).out()),
-            "nt_signed_shr" => return Some(PrimInt::signed_shr(v(0), parse_u32(a[1])).out()),
-            "nt_to_be" => return Some(PrimInt::to_be(v(0)).out()),
-            "nt_to_le" => return Some(PrimInt::to_le(v(0)).out()),
-            "nt_min_value" => return Some(<$T as Bounded>::min_value().out()),
-            "nt_max_value" => return Some(<$T as Bounded>::max_value().out()),
-            "nt_zero" => return Some(<$T as Zero>::zero().out()),
-            "nt_one" => return Some(<$T as One>::one().out()),
-            "nt_is_zero" => return Some(Zero::is_zero(&v(0)).out()),
-            "nt_is_one" => return Some(One::is_one(&v(0)).out()),
-            "nt_from_str_radix" => {
+            "sqrt" => return Some(Roots::sqrt(&v(0)).out()),
+            "cbrt" => return Some(Roots::cbrt(&v(0)).out()),
+            "nth_root" => return Some(Roots::nth_root(&v(0), parse_u32(a[1])).out()),
+            "checked_add" => return Some(CheckedAdd::checked_add(&v(0), &v(1)).out()),
+            "checked_sub" => return Some(CheckedSub::checked_sub(&v(0), &v(1)).out()),
+            "checked_mul" => return Some(CheckedMul::checked_mul(&v(0), &v(1)).out()),
+            "checked_div" => return Some(CheckedDiv::checked_div(&v(0), &v(1)).out()),
+            "checked_rem" => return Some(CheckedRem::checked_rem(&v(0), &v(1)).out()),
+            "checked_neg" => return Some(CheckedNeg::checked_neg(&v(0)).out()),
+            "checked_div_euclid" => return Some(CheckedEuclid::checked_div_euclid(&v(0), &v(1)).out()),
+            "checked_rem_euclid" => return Some(CheckedEuclid::checked_rem_euclid(&v(0), &v(1)).out()),
+            "wrapping_add" => return Some(WrappingAdd::wrapping_add(&v(0), &v(1)).out()),
+            "wrapping_sub" => return Some(WrappingSub::wrapping_sub(&v(0), &v(1)).out()),
+            "wrapping_mul" => return Some(WrappingMul::wrapping_mul(&v(0), &v(1)).out()),
+            "wrapping_neg" => return Some(WrappingNeg::wrapping_neg(&v(0)).out()),
+            "saturating_add" => return Some(Saturating::saturating_add(v(0), v(1)).out()),
+            "saturating_sub" => return Some(Saturating::saturating_sub(v(0), v(1)).out()),
+            "overflowing_add" => return Some(OverflowingAdd::overflowing_add(&v(0), &v(1)).out()),
+            "overflowing_sub" => return Some(OverflowingSub::overflowing_sub(&v(0), &v(1)).out()),
+            "pow" => return Some(Pow::pow(v(0), parse_u32(a[1])).out()),
+            "mul_add" => return Some(MulAdd::mul_add(v(0), v(1), v(2)).out()),
+            "div_euclid" => return Some(Euclid::div_euclid(&v(0), &v(1)).out()),
+            "rem_euclid" => return Some(Euclid::rem_euclid(&v(0), &v(1)).out()),
+            "count_ones" => return Some(Dec(PrimInt::count_ones(v(0))).out()),
+            "count_zeros" => return Some(Dec(PrimInt::count_zeros(v(0))).out()),
+            "leading_zeros" => return Some(Dec(PrimInt::leading_zeros(v(0))).out()),
+            "trailing_zeros" => return Some(Dec(PrimInt::trailing_zeros(v(0))).out()),
+            "rotate_left" => return Some(PrimInt::rotate_left(v(0), parse_u32(a[1])).out()),
+            "rotate_right" => return Some(PrimInt::rotate_right(v(0), parse_u32(a[1])).out()),
+            "swap_bytes" => return Some(PrimInt::swap_bytes(v(0)).out()),
+            "unsigned_shl" => return Some(PrimInt::unsigned_shl(v(0), parse_u32(a[1])).out()),
+            "unsigned_shr" => return Some(PrimInt::unsigned_shr(v(0), parse_u32(a[1])).out()),
+            "signed_shl" => return Some(PrimInt::signed_shl(v(0), parse_u32(a[1])).out()),
+            "signed_shr" => return Some(PrimInt::signed_shr(v(0), parse_u32(a[1])).out()),
+            "to_be" => return Some(PrimInt::to_be(v(0)).out()),
+            "to_le" => return Some(PrimInt::to_le(v(0)).out()),
+            "min_value" => return Some(<$T as Bounded>::min_value().out()),
+            "max_value" => return Some(<$T as Bounded>::max_value().out()),
+            "zero" => return Some(<$T as Zero>::zero().out()),
+            "one" => return Some(<$T as One>::one().out()),
+            "is_zero" => return Some(Zero::is_zero(&v(0)).out()),
+            "is_one" => return Some(One::is_one(&v(0)).out()),
+            "from_str_radix" => {
                 let b = parse_bytes(a[1]);
                 return Some(match std::str::from_utf8(&b) {
                     Ok(s) => match <$T as Num>::from_str_radix(s, parse_u32(a[0])) { Ok(x) => format!("Ok({})", x.to_hex()), Err(e) => format!("Err({:?})", e.kind()) },
@@ -83,11 +83,11 @@ macro_rules! imp {
             common!(IT, op, a);
             let v = |i: usize| IT::from_hex(a[i]);
             match op {
-                "nt_abs" => { if !mode_ok(a[0]) { return Some("skip".into()); } Some(Signed::abs(&v(1)).out()) }
-                "nt_abs_sub" => { if !mode_ok(a[0]) { return Some("skip".into()); } Some(Signed::abs_sub(&v(1), &v(2)).out()) }
-                "nt_signum" => Some(Signed::signum(&v(0)).out()),
-                "nt_is_positive" => Some(Signed::is_positive(&v(0)).out()),
-                "nt_is_negative" => Some(Signed::is_negative(&v(0)).out()),
+                "abs" => Some(Signed::abs(&v(0)).out()),
+                "abs_sub" => Some(Signed::abs_sub(&v(0), &v(1)).out()),
+                "signum" => Some(Signed::signum(&v(0)).out()),
+                "is_positive" => Some(Signed::is_positive(&v(0)).out()),
+                "is_negative" => Some(Signed::is_negative(&v(0)).out()),
                 _ => None,
             }
         }
@@ -98,6 +98,13 @@ macro_rules! imp {
 
 fn main() {
     serve(|op, cfg, args| {
+        // every op may carry the `nt_` prefix (routes the request to the C18 model) and an optional `dbg|rel` word
+        let op = op.strip_prefix("nt_").unwrap_or(op);
+        let mut args = args;
+        if !args.is_empty() && (args[0] == "dbg" || args[0] == "rel") {
+            if !mode_ok(args[0]) { return Some("skip".into()); }
+            args = &args[1..];
+        }
         let (signed, c) = split_cfg(cfg);
         let f: Option<fn(bool, &str, &[&str]) -> Option<String>> = for_config!(c, imp);
         f.and_then(|f| f(signed, op, args))
